@@ -10,8 +10,10 @@ for f in sorted(glob.glob(R + '/seeded/*/meta.json')):
     ver = 'yes' if os.path.exists(d + '/verified.txt') and 'exit 0; with the change: exit' in open(d + '/verified.txt').read() else 'pending'
     rows.append('| %s | %s | %s | %s | %s |' % (m['id'], ', '.join(os.path.basename(x) for x in files), m['outcome'].replace('|', '/'), '; '.join(m['signatures_reported'])[:160].replace('|', '/'), ver))
 caught = sum(1 for r in rows if '| caught' in r)
-table = ('%d changes, %d caught by the check as it was, %d missed at first and caught after the check was strengthened (what was added is in the outcome column).\n\n'
-         '| id | file changed | outcome | signature(s) reported | independently re-verified (suite passes, demo fails with / passes without) |\n|---|---|---|---|---|\n' % (len(rows), caught, len(rows) - caught)) + '\n'.join(rows) + '\n'
+other = sum(1 for r in rows if '| not caught by' in r)
+table = ('%d changes, %d caught by the check as it was, %d missed at first and caught after the check was strengthened (what was added is in the outcome column)' % (len(rows), caught, len(rows) - caught - other)
+         + (', %d outside the anchor of the property they were written for and caught by the check of the property that owns the changed code' % other if other else '') + '.\n\n'
+         '| id | file changed | outcome | signature(s) reported | independently re-verified (suite passes, demo fails with / passes without) |\n|---|---|---|---|---|\n') + '\n'.join(rows) + '\n'
 p = R + '/DESIGN.md'; s = open(p).read()
 a = s.index('<!-- SEEDTABLE -->'); b = s.index('<!-- /SEEDTABLE -->')
 s = s[:a] + '<!-- SEEDTABLE -->\n' + table + s[b:]
